@@ -453,6 +453,41 @@ def f1p_for_tuple(it, fn):
     return it.rule("F1", r"for \(chunk, _\) in data\.iter\(\) \{", "for (chunk, _) in it: data.iter() {", fn=fn)
 
 
+def build_eq(u, impl_anchor, fn, o):
+    """`rope == str` / `rope == &str`: the answer is exactly whether the denoted text equals the string; `o` names the str operand in spec position"""
+    eq = u.method("src/rope.rs", impl_anchor, "eq")
+    eq.rule("D1", r"fn eq\(", f"fn {fn}(")
+    f1p_for_tuple(eq, fn)
+    # N1: the local `other` (bytes) shadows the parameter `other` (str); alpha-renamed so that the loop invariant can name both
+    eq.rule("N1", r"let other = other\.as_bytes\(\);.*", lambda m: "let other_b = other.as_bytes();" + re.sub(r"\bother\b", "other_b", m.group(0)[len("let other = other.as_bytes();"):]))
+    eq.sig(fn, [(f"Rope::{fn}.requires", "contract", "requires self.wf()"),
+                      # `==` on byte slices: axiom_u8_slice_eq (std's PartialEq for slices); the comparison never slices `other` out of range
+                      (f"Rope::{fn}.ensures", "contract", f"ensures r == (self.bytes() == {o}.spec_bytes())")], ret="r")
+    eq.body_start(fn, f"Rope::{fn}.ghost.o", "ghost", f"let ghost ob = {o}.spec_bytes();")
+    eq.body_start(fn, f"Rope::{fn}.hint.len", "hint", "proof { self.lemma_last(); }")
+    eq.loop(fn, 1, [(f"Rope::{fn}.loop1.inv", "contract",
+                           f"invariant self.bytes() == chunks_bytes(data@), ob == {o}.spec_bytes(), chunks_wf(data@), other_b@ == ob, ob.len() == chunks_bytes(data@).len(), ob.len() <= usize::MAX, idx == chunks_bytes(data@.take(it.index@ as int)).len(), idx <= ob.len(),\n"
+                           "  ob.subrange(0, idx as int) == chunks_bytes(data@.take(it.index@ as int)),")])
+    eq.loop_body_start(fn, 1, f"Rope::{fn}.hint.step", "hint",
+                       "proof {\n"
+                       "  let i = it.index@ as int; let d = data@;\n"
+                       "  lemma_chunks_take(d, i); lemma_chunks_prefix(d, i + 1); lemma_chunks_prefix(d, i);\n"
+                       "  let p = chunks_bytes(d.take(i)); let q = chunks_bytes(d.take(i + 1));\n"
+                       "  assert(ob.subrange(0, q.len() as int) =~= ob.subrange(0, p.len() as int) + ob.subrange(p.len() as int, q.len() as int));\n"
+                       "  assert(q.subrange(p.len() as int, q.len() as int) =~= d[i].0.spec_bytes());\n"
+                       "  if ob == chunks_bytes(d) {\n"
+                       "    assert(ob.subrange(p.len() as int, q.len() as int) =~= ob.subrange(0, q.len() as int).subrange(p.len() as int, q.len() as int));\n"
+                       "    assert(ob.subrange(p.len() as int, q.len() as int) == d[i].0.spec_bytes());\n"
+                       "  }\n"
+                       "}")
+    eq.at(fn, "before", r"for \(chunk, _\) in it: data\.iter\(\)", f"Rope::{fn}.hint.init", "hint",
+          "proof { assert(data@.take(0) =~= Seq::<(&str, usize)>::empty()); assert(ob.subrange(0, 0) =~= Seq::<u8>::empty()); }", regex=True, nth=1)
+    _, _, bc = eq.loop_span(fn, 1)
+    eq.buf.insert_at(bc + 1, ["    proof { assert(data@.take(data@.len() as int) =~= data@); assert(ob.subrange(0, ob.len() as int) =~= ob); }"], eq._org(f"Rope::{fn}.hint.end", "hint", fn, None))
+    eq.body_start(fn, f"canary.Rope::{fn}", "canary", "proof { assert(false); }")
+    eq.loop_body_start(fn, 1, f"canary.Rope::{fn}.loop1", "canary", "proof { assert(false); }")
+
+
 def build_render(u):
     """to_bytes / to_string: the rope renders to exactly the text it denotes"""
     u.raw(IMPL, ("glue", NAME))
@@ -483,39 +518,10 @@ def build_render(u):
     ts.body_start("to_string", "Rope::to_string.hint.light", "hint", "broadcast use rope_ax::axiom_to_string_ref_str;\nproof { if let Repr::Light(s0) = self.repr { lemma_str_bytes(s0); } }")
     ts.body_start("to_string", "canary.Rope::to_string", "canary", "proof { assert(false); }")
     ts.loop_body_start("to_string", 1, "canary.Rope::to_string.loop1", "canary", "proof { assert(false); }")
-    eq = u.method("src/rope.rs", "impl PartialEq<str> for Rope<'_> {", "eq")
-    eq.rule("D1", r"fn eq\(", "fn eq_str(")
-    f1p_for_tuple(eq, "eq_str")
-    # N1: the local `other` (bytes) shadows the parameter `other` (str); alpha-renamed so that the loop invariant can name both
-    eq.rule("N1", r"let other = other\.as_bytes\(\);.*", lambda m: "let other_b = other.as_bytes();" + re.sub(r"\bother\b", "other_b", m.group(0)[len("let other = other.as_bytes();"):]))
-    eq.sig("eq_str", [("Rope::eq_str.requires", "contract", "requires self.wf()"),
-                      # `==` on byte slices: axiom_u8_slice_eq (std's PartialEq for slices); the comparison never slices `other` out of range
-                      ("Rope::eq_str.ensures", "contract", "ensures r == (self.bytes() == other.spec_bytes())")], ret="r")
-    eq.body_start("eq_str", "Rope::eq_str.ghost.o", "ghost", "let ghost ob = other.spec_bytes();")
-    eq.body_start("eq_str", "Rope::eq_str.hint.len", "hint", "proof { self.lemma_last(); }")
-    eq.loop("eq_str", 1, [("Rope::eq_str.loop1.inv", "contract",
-                           "invariant self.bytes() == chunks_bytes(data@), ob == other.spec_bytes(), chunks_wf(data@), other_b@ == ob, ob.len() == chunks_bytes(data@).len(), ob.len() <= usize::MAX, idx == chunks_bytes(data@.take(it.index@ as int)).len(), idx <= ob.len(),\n"
-                           "  ob.subrange(0, idx as int) == chunks_bytes(data@.take(it.index@ as int)),")])
-    eq.loop_body_start("eq_str", 1, "Rope::eq_str.hint.step", "hint",
-                       "proof {\n"
-                       "  let i = it.index@ as int; let d = data@;\n"
-                       "  lemma_chunks_take(d, i); lemma_chunks_prefix(d, i + 1); lemma_chunks_prefix(d, i);\n"
-                       "  let p = chunks_bytes(d.take(i)); let q = chunks_bytes(d.take(i + 1));\n"
-                       "  assert(ob.subrange(0, q.len() as int) =~= ob.subrange(0, p.len() as int) + ob.subrange(p.len() as int, q.len() as int));\n"
-                       "  assert(q.subrange(p.len() as int, q.len() as int) =~= d[i].0.spec_bytes());\n"
-                       "  if ob == chunks_bytes(d) {\n"
-                       "    assert(ob.subrange(p.len() as int, q.len() as int) =~= ob.subrange(0, q.len() as int).subrange(p.len() as int, q.len() as int));\n"
-                       "    assert(ob.subrange(p.len() as int, q.len() as int) == d[i].0.spec_bytes());\n"
-                       "  }\n"
-                       "}")
-    eq.at("eq_str", "before", r"for \(chunk, _\) in it: data\.iter\(\)", "Rope::eq_str.hint.init", "hint",
-          "proof { assert(data@.take(0) =~= Seq::<(&str, usize)>::empty()); assert(ob.subrange(0, 0) =~= Seq::<u8>::empty()); }", regex=True, nth=1)
-    _, _, bc = eq.loop_span("eq_str", 1)
-    eq.buf.insert_at(bc + 1, ["    proof { assert(data@.take(data@.len() as int) =~= data@); assert(ob.subrange(0, ob.len() as int) =~= ob); }"], eq._org("Rope::eq_str.hint.end", "hint", "eq_str", None))
-    eq.body_start("eq_str", "canary.Rope::eq_str", "canary", "proof { assert(false); }")
-    eq.loop_body_start("eq_str", 1, "canary.Rope::eq_str.loop1", "canary", "proof { assert(false); }")
+    build_eq(u, "impl PartialEq<str> for Rope<'_> {", "eq_str", "other")
+    build_eq(u, "impl PartialEq<&str> for Rope<'_> {", "eq_ref_str", "(*other)")
     u.raw("}", ("glue", NAME))
-    u.contracted += [("Rope::to_bytes", "src/rope.rs"), ("Rope::to_string", "src/rope.rs"), ("<Rope as PartialEq<str>>::eq", "src/rope.rs")]
+    u.contracted += [("Rope::to_bytes", "src/rope.rs"), ("Rope::to_string", "src/rope.rs"), ("<Rope as PartialEq<str>>::eq", "src/rope.rs"), ("<Rope as PartialEq<&str>>::eq", "src/rope.rs")]
 
 
 def build(u):
